@@ -326,58 +326,58 @@ pub fn apply<C: Coll>(obj: &mut C, m: &mut Model, op: &Op, sink: Sink, st: &mut 
 }
 
 /// Compare every observation of one object with the model.
-pub fn check_node<C: Coll>(obj: &C, m: &Model, sink: Sink, st: &mut Stats) {
+pub fn check_node<C: Coll>(obj: &C, m: &Model, detail: bool, sink: Sink, st: &mut Stats) {
     st.evaluations += 1;
     let want_items = model_items(m);
     let r = catch(|| {
         let mut bad: Vec<(&'static str, String)> = vec![];
         let len = obj.len_();
         if len != want_items.len() {
-            bad.push(("len/wrong", format!("len() = {len}, model has {} element(s)", want_items.len())));
+            bad.push(("len/wrong", if detail { format!("len() = {len}, model has {} element(s)", want_items.len()) } else { String::new() }));
         }
         if obj.empty() != want_items.is_empty() {
-            bad.push(("is_empty/wrong", format!("is_empty() = {}, model has {} element(s)", obj.empty(), want_items.len())));
+            bad.push(("is_empty/wrong", if detail { format!("is_empty() = {}, model has {} element(s)", obj.empty(), want_items.len()) } else { String::new() }));
         }
         for t in DOM.iter().chain(ABSENT.iter()) {
             let present = m.get(t).cloned().unwrap_or(0);
             if obj.has(*t) != (present > 0) {
-                bad.push(("contains/wrong", format!("contains({t:?}) = {}, model count {present}", obj.has(*t))));
+                bad.push(("contains/wrong", if detail { format!("contains({t:?}) = {}, model count {present}", obj.has(*t)) } else { String::new() }));
             }
             if let Some(g) = obj.get_(*t) {
                 let want = if present > 0 { Some((*t, present)) } else { None };
                 if g != want {
-                    bad.push(("get/wrong", format!("get({t:?}) = {g:?}, model says {want:?}")));
+                    bad.push(("get/wrong", if detail { format!("get({t:?}) = {g:?}, model says {want:?}") } else { String::new() }));
                 }
             }
         }
         let it = obj.items();
         if it != want_items {
-            bad.push(("iter/wrong", format!("iter() = {it:?}, model {want_items:?}")));
+            bad.push(("iter/wrong", if detail { format!("iter() = {it:?}, model {want_items:?}") } else { String::new() }));
         }
         let c = obj.clone();
         if let Some(e) = obj.equ(&c) {
             if !e || c.equ(obj) != Some(true) {
-                bad.push(("eq/wrong", "a clone is not == to its original".to_string()));
+                bad.push(("eq/wrong", if detail { "a clone is not == to its original".to_string() } else { String::new() }));
             }
         }
         if c.len_() != len || c.items() != it {
-            bad.push(("clone/wrong", format!("clone has len {} items {:?}", c.len_(), c.items())));
+            bad.push(("clone/wrong", if detail { format!("clone has len {} items {:?}", c.len_(), c.items()) } else { String::new() }));
         }
         let into = c.into_items();
         if into != want_items {
-            bad.push(("into_iter/wrong", format!("into_iter() = {into:?}, model {want_items:?}")));
+            bad.push(("into_iter/wrong", if detail { format!("into_iter() = {into:?}, model {want_items:?}") } else { String::new() }));
         }
         // a collection rebuilt from the model's content (different insertion history / capacity)
         let mut fresh = C::default();
         fresh.ext(&want_items);
         if let (Some(a), Some(b)) = (obj.equ(&fresh), fresh.equ(obj)) {
             if !a || !b {
-                bad.push(("eq/wrong", format!("not == to a fresh collection extended with the same content {want_items:?} ({a}, reverse {b})")));
+                bad.push(("eq/wrong", if detail { format!("not == to a fresh collection extended with the same content {want_items:?} ({a}, reverse {b})") } else { String::new() }));
             }
         }
         if let Some(col) = C::collect_from(&want_items) {
             if obj.equ(&col) != Some(true) || col.items() != want_items {
-                bad.push(("from_iter/wrong", format!("FromIterator of {want_items:?} gives {:?}, == is {:?}", col.items(), obj.equ(&col))));
+                bad.push(("from_iter/wrong", if detail { format!("FromIterator of {want_items:?} gives {:?}, == is {:?}", col.items(), obj.equ(&col)) } else { String::new() }));
             }
         }
         // one more insert must make the two differ, unless a set already holds the tuple
@@ -387,7 +387,7 @@ pub fn check_node<C: Coll>(obj: &C, m: &Model, sink: Sink, st: &mut Stats) {
             let same = C::IS_SET && m.contains_key(&t);
             if let (Some(a), Some(b)) = (obj.equ(&more), more.equ(obj)) {
                 if a != same || b != same {
-                    bad.push(("eq/wrong", format!("== with a clone that additionally got {t:?}: {a} / reverse {b}, expected {same}")));
+                    bad.push(("eq/wrong", if detail { format!("== with a clone that additionally got {t:?}: {a} / reverse {b}, expected {same}") } else { String::new() }));
                 }
             }
         }
@@ -427,7 +427,20 @@ fn dfs<C: Coll>(ctx: &Ctx, obj: &C, m: &Model, hist: &mut Vec<Op>, acc: &mut Acc
     acc.st.states += 1;
     acc.st.traces += 1;
     let mut hits: Vec<(String, String)> = vec![];
-    check_node(obj, m, &mut |c, d| hits.push((c.to_string(), d)), &mut acc.st);
+    check_node(obj, m, false, &mut |c, d| hits.push((c.to_string(), d)), &mut acc.st);
+    if !hits.is_empty() {
+        // details are formatted only when one of the hits becomes its class's first witness
+        let order = (ctx.coll_idx * 10, hist_order(hist, full));
+        let need = hits.iter().any(|(c, _)| match acc.cl.map.get(&format!("{}/{c}", C::NAME)) {
+            Some(h) => order < h.order,
+            None => true,
+        });
+        if need {
+            hits.clear();
+            let mut scratch = Stats::new();
+            check_node(obj, m, true, &mut |c, d| hits.push((c.to_string(), d)), &mut scratch);
+        }
+    }
     let content = model_items(m);
     match reps.get(&content) {
         Some(h) if h.len() <= hist.len() => {}
@@ -472,10 +485,10 @@ fn replay_history<C: Coll>(ops: &[Op], verbose: bool) -> Classes {
     let mut obj = C::default();
     let mut m = Model::new();
     let mut hits: Vec<(String, String)> = vec![];
-    check_node(&obj, &m, &mut |c, d| hits.push((c.to_string(), d)), &mut st);
+    check_node(&obj, &m, true, &mut |c, d| hits.push((c.to_string(), d)), &mut st);
     for (i, op) in ops.iter().enumerate() {
         apply(&mut obj, &mut m, op, &mut |c, d| hits.push((c.to_string(), format!("step {i}: {d}"))), &mut st);
-        check_node(&obj, &m, &mut |c, d| hits.push((c.to_string(), format!("after step {i} ({}): {d}", op_str(op)))), &mut st);
+        check_node(&obj, &m, true, &mut |c, d| hits.push((c.to_string(), format!("after step {i} ({}): {d}", op_str(op)))), &mut st);
         if verbose {
             println!("  step {i} {:12} -> len {} items {:?}   model {}", op_str(op), obj.len_(), obj.items(), model_str(&m));
         }
@@ -631,7 +644,7 @@ pub fn run(rep: &mut Report) {
     let full = alphabet_full();
     let reduced = alphabet_reduced();
     let ops_by_level: Vec<Vec<Op>> = if thorough {
-        vec![full.clone(), full.clone(), full.clone(), full.clone(), full.clone(), reduced.clone()]
+        vec![full.clone(), full.clone(), full.clone(), full.clone(), reduced.clone(), reduced.clone()]
     } else {
         vec![full.clone(), full.clone(), full.clone(), full.clone()]
     };
@@ -652,7 +665,7 @@ pub fn run(rep: &mut Report) {
     rep.bound("depth", ops_by_level.len());
     rep.bound("ops_per_level", json!(ops_by_level.iter().map(|l| l.len()).collect::<Vec<_>>()));
     rep.bound("alphabet_full", json!(full.iter().map(op_str).collect::<Vec<_>>()));
-    rep.bound("alphabet_reduced_last_level", json!(reduced.iter().map(op_str).collect::<Vec<_>>()));
+    rep.bound("alphabet_reduced", json!(reduced.iter().map(op_str).collect::<Vec<_>>()));
     let mut all = Classes::new();
     let mut counters = BTreeMap::new();
     macro_rules! coll {
